@@ -6,53 +6,16 @@
    nothing for Sector/Signature/Hash beyond acceptance) - the lemmas state equality after that
    projection.
 
-   Same name-independent case-splitting automation as Revision/GenEquiv.v (copied: the MDM group
-   does not depend on the Revision group). *)
+   Same meaning-following case-split automation as Revision/GenEquiv.v: the shared tactic library
+   coq/Revision/GenTactics.v (it depends on Coq's library and Base.v only) is included with [Load],
+   so that the MDM group does not have to be built after - and cannot be broken by - the Revision
+   group. *)
 From Coq Require Import Lia ZifyBool ZifyN ZifyNat.
 From HostdBase Require Import Base.
 From HostdMDM Require Import Model GenPrelude.
 From HostdMDM.gen Require Import MDMGen.
+Load "../Revision/GenTactics".
 Local Open Scope N_scope.
-
-Ltac inner x :=
-  lazymatch x with
-  | context [match ?y with _ => _ end] => inner y
-  | _ => x
-  end.
-Ltac simp := cbv beta iota zeta.
-Ltac split_step :=
-  match goal with
-  | |- context [match ?x with _ => _ end] =>
-      let y := inner x in
-      first [ match goal with H : y = _ |- _ => rewrite H end
-            | is_var y; destruct y
-            | destruct y eqn:? ];
-      simp
-  end.
-Ltac leaf :=
-  first [ reflexivity | congruence | exfalso; lia | repeat f_equal; lia ].
-Ltac split_all_l L :=
-  simp; L; simp;
-  lazymatch goal with
-  | |- ?x = ?x => reflexivity
-  | |- context [match _ with _ => _ end] => split_step; split_all_l L
-  | _ => leaf
-  end.
-
-Lemma wsub_sub : forall a b, b <= a -> a < two64 -> wsub a b = a - b.
-Proof.
-  intros a b Hb Ha. unfold wsub. assert (Hp : 0 < two64) by reflexivity.
-  rewrite (N.mod_small b) by lia.
-  replace (a + two64 - b) with ((a - b) + 1 * two64) by lia.
-  rewrite N.mod_add by lia. apply N.mod_small; lia.
-Qed.
-
-Lemma wadd_small : forall a b, a + b < two64 -> wadd a b = a + b.
-Proof. intros; unfold wadd; apply N.mod_small; assumption. Qed.
-
-(* wrapping operations are rewritten to plain ones as soon as the context shows they do not wrap *)
-Ltac nowrap :=
-  repeat first [ rewrite wsub_sub by lia | rewrite wadd_small by lia ].
 
 Ltac equiv_pd :=
   repeat autounfold with go2coq in *;
